@@ -114,9 +114,11 @@ def check(ctx, case):
             try:
                 interp.run(case.prog, f.name, args, gl, step_limit=5000)
             except OutOfDomain as e:
-                # an intermediate leaves 32 bit, a division by zero ...: outside the property's domain
-                ctx.discard("outside-domain:" + e.reason)
-                continue
+                # an intermediate leaves 32 bit, a division by zero ...: outside the property's domain.  The sign
+                # convention of % is NOT a reason to skip: here the VM itself is the reference.
+                if e.reason not in ("negative-mod", "float-mod"):
+                    ctx.discard("outside-domain:" + e.reason)
+                    continue
             vm = adapter.new_vm(program)
             for k, v in deep_copy(gl).items():
                 vm.SetGlobal(k, v)
